@@ -1,0 +1,110 @@
+//! Instrumentation for the verification harness; compiled only with `--cfg vbxq_aelys_lang_verif`.
+//!
+//! The VM puts a callee's frame right after the call's window (`dest + 1` for CallGlobal /
+//! CallUpval, `callee_reg + 1` for Call), so every caller register above the window is
+//! overwritten by the callee. `record_call` notes, for each frame-pushing call the compiler
+//! emits, which registers above the window are still marked in use. `pool_script` drives the
+//! register-pool functions themselves on a given pool.
+
+use crate::Compiler;
+use crate::compiler::liveness::LivenessAnalysis;
+use aelys_syntax::{Source, Span};
+use std::cell::RefCell;
+use std::collections::HashSet;
+
+#[derive(Debug, Clone)]
+pub struct CallWindow {
+    pub op: &'static str,
+    pub function: String,
+    pub base: u8,
+    pub nargs: u8,
+    pub in_use_above: Vec<u8>,
+}
+
+thread_local! {
+    static CALLS: RefCell<(u64, Vec<CallWindow>)> = const { RefCell::new((0, Vec::new())) };
+}
+
+pub(crate) fn record_call(op: &'static str, function: Option<&str>, base: u8, nargs: u8, pool: &[bool; 256]) {
+    let first = base as usize + nargs as usize + 1;
+    let in_use_above: Vec<u8> = (first..256).filter(|&i| pool[i]).map(|i| i as u8).collect();
+    CALLS.with(|c| {
+        let mut c = c.borrow_mut();
+        c.0 += 1;
+        if !in_use_above.is_empty() && c.1.len() < 64 {
+            c.1.push(CallWindow {
+                op,
+                function: function.unwrap_or("<script>").to_string(),
+                base,
+                nargs,
+                in_use_above,
+            });
+        }
+    });
+}
+
+/// Number of frame-pushing calls emitted on this thread since the last call, and those among
+/// them that had a register in use above their window.
+pub fn take_call_windows() -> (u64, Vec<CallWindow>) {
+    CALLS.with(|c| std::mem::take(&mut *c.borrow_mut()))
+}
+
+/// One step of `pool_script`.
+#[derive(Debug, Clone, Copy)]
+pub enum PoolOp {
+    /// alloc_register
+    Alloc,
+    /// free_register(r)
+    Free(u8),
+    /// alloc_consecutive_registers_for_call(n) (finds the window, does not mark it)
+    AllocCall(u8),
+    /// alloc_consecutive_from(start, count)
+    AllocFrom(u8, u8),
+    /// declare a local in register r (already in use); `dead` = liveness says it is dead
+    Local { register: u8, dead: bool, captured: bool },
+    /// free_dead_locals
+    FreeDead,
+}
+
+/// Runs the register-pool functions of a fresh `Compiler` whose pool has exactly `used` in use.
+/// Returns per step the function's result (register / start / number freed; -1 = error) and the
+/// registers in use afterwards.
+pub fn pool_script(used: &[u8], ops: &[PoolOp]) -> Vec<(i32, Vec<u8>)> {
+    let mut c = Compiler::new(None, Source::new("<pool>", ""));
+    for &r in used {
+        c.register_pool[r as usize] = true;
+    }
+    let mut live = LivenessAnalysis::default();
+    let mut already = HashSet::new();
+    let mut out = Vec::new();
+    for (k, op) in ops.iter().enumerate() {
+        let r: i32 = match *op {
+            PoolOp::Alloc => c.alloc_register().map(|r| r as i32).unwrap_or(-1),
+            PoolOp::Free(r) => {
+                c.free_register(r);
+                0
+            }
+            PoolOp::AllocCall(n) => c
+                .alloc_consecutive_registers_for_call(n, Span::dummy())
+                .map(|r| r as i32)
+                .unwrap_or(-1),
+            PoolOp::AllocFrom(s, n) => c.alloc_consecutive_from(s, n).map(|r| r as i32).unwrap_or(-1),
+            PoolOp::Local { register, dead, captured } => {
+                let name = format!("v{k}");
+                c.add_local(name.clone(), false, register, aelys_sema::ResolvedType::Dynamic);
+                if captured && let Some(l) = c.locals.last_mut() {
+                    l.is_captured = true;
+                }
+                // is_dead_after(name, 0): dead unless it has a later last use
+                if !dead {
+                    live.last_use_point.insert(name, 1);
+                }
+                0
+            }
+            PoolOp::FreeDead => c.free_dead_locals(0, &live, &mut already) as i32,
+        };
+        let used_now = (0..256).filter(|&i| c.register_pool[i]).map(|i| i as u8).collect();
+        out.push((r, used_now));
+    }
+    out
+}
